@@ -88,18 +88,20 @@ func checkC16(c *Ctx) {
 
 	c.Clause("feature disabled ⇒ the function returns before touching any header")
 	c.Clause("enabled ⇒ the response header is set exactly once, under the configured name, before the chain runs")
-	c.Clause("generated path: request and response receive the same generated value; supplied path: the value echoed is the value the request carries on — the request untouched and echoed as sent, or the normalised value placed on both")
+	c.Clause("generated path: request and response receive the same generated value; supplied path: the request is left untouched (Header.Set would cut a header sent on several lines down to its first) and the value echoed is the value it carries")
 	c.Clause("the header name is RequestHeaderName/TraceHeaderName(cfg) on both sides")
 	c.Clause("generated identifiers derive from crypto/rand.Read over a buffer of ≥ 12 bytes")
 	c.Clause("buildHandler applies RequestContextMiddleware outermost on every non-error path")
 	c.Clause("the ID headers set before the chain survive an interim (1xx) response, after which httputil empties the header map: the writer given to the reverse proxy restores a snapshot of the pre-set headers")
 	c.Clause("no other Helios code deletes or overwrites the ID headers on a response (header deletions under computed keys, wholesale map replacement)")
+	c.Clause("RequestHeaderName / TraceHeaderName yield the configured name whenever one is configured: only emptiness sends them to the default")
 	c.NotDecided("a second value added by inner layers (backend echo through httputil's additive header copy, the request-id plugin); statistical uniqueness")
 
 	// The rules are stated end to end on the middleware's handler, with the logging package's own
 	// helpers inlined: whether the two identifiers are handled by two functions, one shared helper or
 	// inline code makes no difference.
 	c.presetHeadersSurviveInterim()
+	c.configuredNameHonoured()
 	rcm := p.Fn("internal/logging", "", "RequestContextMiddleware")
 	var inner *ssa.Function
 	if rcm != nil {
@@ -211,6 +213,9 @@ func checkC16(c *Ctx) {
 						if !sameValue() {
 							return "client-supplied identifier: the value placed on the request is not the value echoed to the client: " + req[0].Label
 						}
+						// Header.Get yields the first line only and Header.Set replaces them all: a header the
+						// client sent on several lines reaches the backend cut down to the first
+						return "a client-supplied identifier is written back onto the request with Header.Set: Get returned its first line only, so every further line the client sent under that name is dropped before the backend sees the request (the supplied value is passed on unchanged only if the request is left alone)"
 					default:
 						return "client-supplied identifier is altered on the request: " + req[0].Label
 					}
@@ -637,6 +642,7 @@ func checkC17(c *Ctx) {
 	c.Clause("registered plugin names are distinct constants, registered from init functions only")
 	c.Clause("with plugins configured every request reaches the balancer through the chain: the handler builder uses the balancer only as BuildChain's base (and as the no-plugin fallback) and hands on BuildChain's own result")
 	c.Clause("a plugin that authenticates compares with a credential its factory refused when empty; a failing listener start is reported to main (no shadowed error), and no fallible start-up step runs after the listener was started")
+	c.Clause("size_limit's rejection covers every request: no path reaches the next handler without the Content-Length test and the MaxBytesReader body (no method or header exempts a request)")
 	c.NotDecided("run-time nesting for specific permutations (argued from the uniform loop shape, not enumerated)")
 
 	bc := p.Fn("internal/plugins", "", "BuildChain")
@@ -792,6 +798,11 @@ func checkC17(c *Ctx) {
 
 	// 3. rejection stops the chain
 	c.rejectionStops()
+	// … and size_limit, the rejecting plugin the property names, rejects every request it is meant to:
+	// the length test and the bounded body apply on every path to the next handler (shared with C14)
+	if w := c.wrapperNamed("plugins.limitedResponseWriter"); w != nil {
+		c.requestBound(w)
+	}
 
 	// 5. registered names
 	var names []string
@@ -1629,7 +1640,10 @@ func (c *Ctx) servedHandlerIsBuiltHandler(bh *ssa.Function) {
 		if v == nil || seen[v] || d > 14 {
 			return false, nil
 		}
+		// `seen` holds the values on the current derivation only: the same parameter may be reached
+		// bare through one φ edge and wrapped through another
 		seen[v] = true
+		defer delete(seen, v)
 		switch x := v.(type) {
 		case *ssa.Extract:
 			return origin(x.Tuple, fn, seen, d+1)
@@ -1644,11 +1658,16 @@ func (c *Ctx) servedHandlerIsBuiltHandler(bh *ssa.Function) {
 			}
 			return false, nil
 		case *ssa.Phi:
+			// every edge counts: the handler is the built one if any edge is, and wrapped if any is
+			built := false
+			var wraps []string
 			for _, e := range x.Edges {
 				if b, w := origin(e, fn, seen, d+1); b {
-					return true, w
+					built = true
+					wraps = append(wraps, w...)
 				}
 			}
+			return built, wraps
 		case *ssa.MakeInterface:
 			return origin(x.X, fn, seen, d+1)
 		case *ssa.ChangeInterface:
@@ -1747,4 +1766,48 @@ func handlerParamOf(v ssa.Value, seen map[ssa.Value]bool, d int) *ssa.Parameter 
 		return handlerParamOf(x.X, seen, d+1)
 	}
 	return nil
+}
+
+// suppliedIDLeavesRequestAlone (C01): with the ID features on, the only header the middleware may add
+// to a request is an identifier the client did not send.  On every path on which the identifier was
+// found supplied (non-blank), the request's headers are not written — Set would replace all the lines
+// the client sent under that name by the first one.
+func (c *Ctx) suppliedIDLeavesRequestAlone() {
+	p := c.P
+	rcm := p.Fn("internal/logging", "", "RequestContextMiddleware")
+	var inner *ssa.Function
+	if rcm != nil {
+		for _, cl := range Closures(rcm) {
+			if cl.Signature.Params().Len() == 2 {
+				inner = cl
+			}
+		}
+	}
+	c.traceRule("supplied-id-request-untouched", "logging.RequestContextMiddleware/handler", inner, c.idSpec(),
+		"a request header is written only on a path on which that identifier was found blank",
+		func(t *Trace) string {
+			for i, it := range t.Items {
+				if !strings.HasPrefix(it.Label, "req.") {
+					continue
+				}
+				key := it.Label[strings.Index(it.Label, "(")+1:]
+				if j := strings.LastIndex(key, ")="); j >= 0 {
+					key = key[:j]
+				}
+				blank := false
+				for _, prev := range t.Items[:i] {
+					if _, isIf := prev.Instr.(*ssa.If); !isIf {
+						continue
+					}
+					r := c.condRel(prev)
+					if r.OK && strings.Contains(r.X, "(net/http.Header).Get(fld:http.Request.Header,"+key+")") && !r.Neq && r.Lo == 0 && r.Hi == 0 {
+						blank = true
+					}
+				}
+				if !blank {
+					return "the request header " + key + " is written on a path that has not found it blank: a value the client supplied (possibly on several lines) is replaced before the backend sees the request: " + it.Label
+				}
+			}
+			return ""
+		})
 }
